@@ -305,6 +305,155 @@ def parseGraph (r : List String) : Option (G × (Nat → String)) :=
         | none => none
   | _, _ => none
 
+/-! ### object histories: one `DiGraph` / `MarkovChain` object, label reassignments and reads -/
+
+/-- one public read of a `DiGraph` (`*_indices` variants print indices, the others go through
+    `annotate_nodes` with the labels passed in); a function of the graph and those labels only -/
+def dgRead (g : G) (labels : Option (List Int)) (what : String) : String :=
+  match sccClasses g with
+  | none => "stuck"
+  | some Cs =>
+    let sc := isSC Cs
+    let sccs := if sc then [List.range g.n] else Cs
+    let sinks := if sc then [List.range g.n] else sinkClasses g Cs
+    let idx := labeller none
+    let lab := labeller labels
+    let per := periodDG g Cs
+    let cyc := fun (f : Nat → String) => match per with
+      | .ok (d, proj) => showClasses f (cyclicClasses g d proj)
+      | .notImpl => "ERR:NotImplementedError"
+      | .stuck => "stuck"
+    match what with
+    | "sc" => showBool sc
+    | "nscc" => toString Cs.length
+    | "nsink" => toString (sinkLabels g Cs).length
+    | "scc" => showClasses idx sccs
+    | "sink" => showClasses idx sinks
+    | "cyc" => cyc idx
+    | "scclab" => showClasses lab sccs
+    | "sinklab" => showClasses lab sinks
+    | "cyclab" => cyc lab
+    | "period" => match per with
+      | .ok (d, _) => toString d
+      | .notImpl => "ERR:NotImplementedError"
+      | .stuck => "stuck"
+    | "aper" => match per with
+      | .ok (d, _) => showBool (d == 1)
+      | .notImpl => "ERR:NotImplementedError"
+      | .stuck => "stuck"
+    | _ => "bad-read"
+
+/-- `g.subgraph(nodes)` read: shape, pattern, labels and report of the new object -/
+def dgReadSub (g : G) (labels : Option (List Int)) (nodes : List Nat) : String :=
+  if nodes.isEmpty || !(nodes.all fun v => decide (v < g.n)) then "bad-read"
+  else
+    let h := subgraph g nodes
+    let lab := labeller labels
+    let lab' : Nat → String := match labels with
+      | none => fun i => toString i
+      | some _ => fun i => match nodes[i]? with
+        | some u => lab u
+        | none => "?"
+    "n=" ++ toString h.n ++ " adj=" ++ showMat toString (h.succ.map fun row => row.mergeSort (fun a b => decide (a ≤ b)))
+      ++ " " ++ reportDG h lab'
+
+inductive Step where
+  | setLabels (L : Option (List Int))     -- `g.node_labels = L` / `mc.state_values = L`
+  | read (what : String)
+  | readSub (nodes : List Nat)
+deriving Repr
+
+/-- the state of a `DiGraph` object: the (immutable) graph and the current labels -/
+structure DGState where
+  g : G
+  labels : Option (List Int)
+
+def dgStep (s : DGState) : Step → DGState × Option String
+  | .setLabels L => ({ s with labels := L }, none)
+  | .read w => (s, some (dgRead s.g s.labels w))
+  | .readSub nodes => (s, some (dgReadSub s.g s.labels nodes))
+
+/-- outputs of the reads of a history, in order -/
+def dgRun (s : DGState) : List Step → List String
+  | [] => []
+  | st :: rest =>
+    match dgStep s st with
+    | (s', some out) => out :: dgRun s' rest
+    | (s', none) => dgRun s' rest
+
+/-- one public read of a `MarkovChain`, `dl` = the node labels of its `digraph` -/
+def mcRead (g : G) (dl : Option (List Int)) (what : String) : String :=
+  match sccClasses g with
+  | none => "stuck"
+  | some Cs =>
+    let sc := isSC Cs
+    let sccs := if sc then [List.range g.n] else Cs
+    let sinks := if sc then [List.range g.n] else sinkClasses g Cs
+    let idx := labeller none
+    let lab := labeller dl
+    let cyc := fun (f : Nat → String) =>
+      if !sc then "ERR:NotImplementedError"
+      else match periodDG g Cs with
+        | .ok (d, proj) => showClasses f (cyclicClasses g d proj)
+        | .notImpl => "ERR:NotImplementedError"
+        | .stuck => "stuck"
+    match what with
+    | "irr" => showBool sc
+    | "ncomm" => toString Cs.length
+    | "nrec" => toString (sinkLabels g Cs).length
+    | "comm" => showClasses idx sccs
+    | "rec" => showClasses idx sinks
+    | "cyc" => cyc idx
+    | "commlab" => showClasses lab sccs
+    | "reclab" => showClasses lab sinks
+    | "cyclab" => cyc lab
+    | "period" => match periodMC g Cs with
+      | .ok d => toString d
+      | .notImpl => "ERR:NotImplementedError"
+      | .stuck => "stuck"
+    | "aper" => match periodMC g Cs with
+      | .ok d => showBool (d == 1)
+      | .notImpl => "ERR:NotImplementedError"
+      | .stuck => "stuck"
+    | _ => "bad-read"
+
+/-- the state of a `MarkovChain` object: the chain, the current `state_values`, and the labels its
+    `digraph` was built with (`none` = `self._digraph` not built yet).  The code builds the digraph at
+    the first graph-theoretic read with the `state_values` of that moment and never updates it. -/
+structure MCState where
+  g : G
+  values : Option (List Int)
+  digraph : Option (Option (List Int))
+
+def mcStep (s : MCState) : Step → MCState × Option String
+  | .setLabels L => ({ s with values := L }, none)
+  | .read w =>
+    let dl := match s.digraph with
+      | some dl => dl
+      | none => s.values
+    ({ s with digraph := some dl }, some (mcRead s.g dl w))
+  | .readSub _ => (s, some "bad-read")
+
+def mcRun (s : MCState) : List Step → List String
+  | [] => []
+  | st :: rest =>
+    match mcStep s st with
+    | (s', some out) => out :: mcRun s' rest
+    | (s', none) => mcRun s' rest
+
+def parseStep (n : Nat) (tok : String) : Option Step :=
+  match tok.splitOn ":" with
+  | ["L", "none"] => some (.setLabels none)
+  | ["L", v] => match parseList? parseInt? v with
+    | some L => if L.length == n then some (.setLabels (some L)) else none
+    | none => none
+  | ["R", w] => some (.read w)
+  | ["S", v] => (parseList? parseNat? v).map .readSub
+  | _ => none
+
+def parseSteps (n : Nat) (s : String) : Option (List Step) :=
+  if s = "" ∨ s = "-" then some [] else (s.splitOn "|").mapM (parseStep n)
+
 def handle (toks : List String) : String :=
   match toks with
   | "dg" :: r =>
@@ -329,6 +478,21 @@ def handle (toks : List String) : String :=
             | none => "?"
         "n=" ++ toString h.n ++ " adj=" ++ showMat toString (h.succ.map fun row => row.mergeSort (fun a b => decide (a ≤ b)))
           ++ " " ++ reportDG h lab'
+    | _, _, _ => "bad-op"
+  | "hist" :: r =>
+    -- a history on one object: `kind=dg|mc`, initial `labels=` (optional), `steps=tok|tok|…`
+    match parseGraph r, kv r "kind", kv r "steps" with
+    | some (g, _), some kind, some st =>
+      match parseSteps g.n st with
+      | none => "bad-op"
+      | some steps =>
+        let L0 : Option (List Int) := kvInts r "labels"
+        let outs := if kind == "dg" then some (dgRun ⟨g, L0⟩ steps)
+          else if kind == "mc" then some (mcRun ⟨g, L0, none⟩ steps)
+          else none
+        match outs with
+        | some o => if o.any (· == "bad-read") then "bad-op" else " # ".intercalate o
+        | none => "bad-op"
     | _, _, _ => "bad-op"
   | "reach" :: r =>
     match parseGraph r, kvNat r "s" with
